@@ -1,6 +1,7 @@
 package harness
 
 import (
+	"bufio"
 	"bytes"
 	"fmt"
 	"io"
@@ -75,7 +76,7 @@ func TestC13RoundTrip(t *testing.T) {
 		"rapid: sequences of 1-8 messages (kind, boundary-biased length, write path, chunking) through a writer Conn with drawn write-buffer size/pool/role into an in-memory stream read by a peer Conn with drawn read-buffer size and read fragmentation, the stream's end reported after or together with the last bytes; optionally a second connection sharing the buffer pool with a message in flight at the same time (two open writers, alternating chunks); oracle: ReadMessage sequence == written sequence. non-trivial: some message longer than the write buffer, or written in >1 chunk, or read fragmentation finer than a frame header (<=8 bytes)").Use(t)
 	known := isKnown("C13", sigWTSplit)
 	rapid.Check(t, propC13(col, known))
-	col.RequireClasses(t, "msg>W", "chunked", "read.frag<=8", "path.NextWriter+ReadFrom", "path.WritePreparedMessage", "two-connections-sharing-the-pool", "end-with-last-bytes=true")
+	col.RequireClasses(t, "msg>W", "chunked", "read.frag<=8", "path.NextWriter+ReadFrom", "path.WritePreparedMessage", "two-connections-sharing-the-pool", "end-with-last-bytes=true", "caller-supplied-write-buffer.smaller-than-configured", "caller-supplied-write-buffer.larger-than-configured", "caller-supplied-reader")
 }
 
 // TestC13KnownSplit is the deterministic demonstration of the recorded
@@ -152,6 +153,14 @@ func propC13(col *Collector, known bool) func(rt *rapid.T) {
 		rbs := rapid.SampledFrom([]int{0, 16, 17, 64, 1024, 4096, 70000}).Draw(rt, "rbs")
 		usePool := rapid.Bool().Draw(rt, "pool")
 		isServer := rapid.Bool().Draw(rt, "writerIsServer")
+		// a write buffer and a buffered reader handed in by the caller (NewConn's last two parameters: what an
+		// upgrader that reuses the hijacked connection's buffers passes): their sizes are unrelated to the configured ones
+		var ownBuf []byte
+		ownReader := rapid.Bool().Draw(rt, "callerSuppliedReader")
+		if !usePool && rapid.IntRange(0, 2).Draw(rt, "callerSuppliedWriteBuf") == 0 {
+			ownBuf = make([]byte, rapid.SampledFrom([]int{265, 266, 300, 521, 1033, 4096, 4105, 4106, 9000, 20000}).Draw(rt, "ownBufLen"))
+			eW = len(ownBuf) - 9
+		}
 		n := rapid.IntRange(1, 8).Draw(rt, "n")
 		msgs := make([]wtMsgSpec, n)
 		for i := range msgs {
@@ -169,7 +178,7 @@ func propC13(col *Collector, known bool) func(rt *rapid.T) {
 		default:
 			frag = []int{rapid.IntRange(2, 9).Draw(rt, "frag1")}
 		}
-		journal("C13 W=%d rbs=%d pool=%v server=%v msgs=%v frag=%v", W, rbs, usePool, isServer, msgs, frag)
+		journal("C13 W=%d rbs=%d pool=%v server=%v msgs=%v frag=%v ownBuf=%d ownReader=%v", W, rbs, usePool, isServer, msgs, frag, len(ownBuf), ownReader)
 
 		pipe := newHalfPipe()
 		pipe.frag = frag
@@ -180,8 +189,14 @@ func propC13(col *Collector, known bool) func(rt *rapid.T) {
 		if usePool {
 			pool = mp
 		}
-		wc := webtrans.NewConn(nil, &memWTStream{out: pipe, in: newHalfPipe()}, isServer, 0, W, pool, nil, nil)
-		rc := webtrans.NewConn(nil, &memWTStream{in: pipe, out: newHalfPipe()}, !isServer, rbs, 0, nil, nil, nil)
+		wc := webtrans.NewConn(nil, &memWTStream{out: pipe, in: newHalfPipe()}, isServer, 0, W, pool, nil, ownBuf)
+		var rc *webtrans.Conn
+		if ownReader {
+			rstream := &memWTStream{in: pipe, out: newHalfPipe()}
+			rc = webtrans.NewConn(nil, rstream, !isServer, 0, 0, nil, bufio.NewReaderSize(rstream, effW(rbs)), nil)
+		} else {
+			rc = webtrans.NewConn(nil, &memWTStream{in: pipe, out: newHalfPipe()}, !isServer, rbs, 0, nil, nil, nil)
+		}
 		type wm struct {
 			bin  bool
 			data []byte
@@ -249,6 +264,16 @@ func propC13(col *Collector, known bool) func(rt *rapid.T) {
 		}
 		nontrivial := false
 		classes := []string{fmt.Sprintf("role.server=%v", isServer), fmt.Sprintf("pool=%v", usePool), fmt.Sprintf("end-with-last-bytes=%v", pipe.endWithData)}
+		if ownBuf != nil {
+			cls := "caller-supplied-write-buffer.larger-than-configured"
+			if len(ownBuf) < effW(W)+9 {
+				cls = "caller-supplied-write-buffer.smaller-than-configured"
+			}
+			classes = append(classes, cls)
+		}
+		if ownReader {
+			classes = append(classes, "caller-supplied-reader")
+		}
 		if sharedPool {
 			classes = append(classes, "two-connections-sharing-the-pool")
 			rcB := webtrans.NewConn(nil, &memWTStream{in: pipeB, out: newHalfPipe()}, !isServer, rbs, 0, nil, nil, nil)
@@ -272,8 +297,8 @@ func propC13(col *Collector, known bool) func(rt *rapid.T) {
 				classes = append(classes, "chunked")
 			}
 		}
-		col.Case(fmt.Sprintf("%d|%d|%v|%v|%v|%v", W, rbs, usePool, isServer, msgs, frag), nontrivial,
-			map[string]any{"W": W, "readBuf": rbs, "pool": usePool, "writerIsServer": isServer, "msgs": fmt.Sprint(msgs), "readFrag": frag}, classes...)
+		col.Case(fmt.Sprintf("%d|%d|%v|%v|%v|%v|%d|%v", W, rbs, usePool, isServer, msgs, frag, len(ownBuf), ownReader), nontrivial,
+			map[string]any{"W": W, "readBuf": rbs, "pool": usePool, "writerIsServer": isServer, "msgs": fmt.Sprint(msgs), "readFrag": frag, "callerWriteBuf": len(ownBuf), "callerReader": ownReader}, classes...)
 		if len(got) != len(want) {
 			desc := ""
 			for _, g := range got {
